@@ -286,7 +286,21 @@ impl Sim {
                     Some(i) => i.to_string(),
                     None => "_".into(),
                 });
-                allowed.push(if is_allowed_fee_token(e, t) { "1" } else { "0" });
+                // `is_allowed_fee_token` extends the TTL of `Token(index)`; if the index map points
+                // to a missing entry (inconsistent storage) that host call traps: report "!" instead
+                // of letting the harness die inside `as_contract`
+                let dangling = count > 0
+                    && match i {
+                        Some(i) => !e.storage().persistent().has(&FeeAbstractionStorageKey::Token(i)),
+                        None => false,
+                    };
+                allowed.push(if dangling {
+                    "!"
+                } else if is_allowed_fee_token(e, t) {
+                    "1"
+                } else {
+                    "0"
+                });
             }
             format!(
                 "{}|{}|{}|{}|{}",
